@@ -154,8 +154,21 @@ def run(ctx):
         if fn is not None:
             decor = any(isinstance(x, ast.Call) and dotted(x.func) == 'self._decorate_node_beartype' for x in walk_shallow(fn))
             rec = any(isinstance(x, ast.Call) and dotted(x.func) == 'self.generic_visit' for x in walk_shallow(fn))
+            p = fn.args.args[1].arg if len(fn.args.args) > 1 else 'node'
+            rec_names = {a.targets[0].id for a in walk_shallow(fn) if isinstance(a, ast.Assign) and len(a.targets) == 1
+                         and isinstance(a.targets[0], ast.Name) and isinstance(a.value, ast.Call)
+                         and dotted(a.value.func) == 'self.generic_visit'}
+            if p in rec_names:
+                # `node = self.generic_visit(node)`: the parameter itself carries the recursion only after that statement
+                pass
+            rets = [r for r in walk_shallow(fn) if isinstance(r, ast.Return)]
+            unrec = [r for r in rets if not (
+                (isinstance(r.value, ast.Call) and dotted(r.value.func) == 'self.generic_visit') or
+                (isinstance(r.value, ast.Name) and r.value.id in rec_names))]
+            rec = rec and not unrec
             ok = decor and rec
-            detail = f'decorates: {decor}; recurses: {rec}'
+            detail = f'decorates: {decor}; recurses on every return: {rec}' + (
+                f' (line {unrec[0].lineno} returns {norm(unrec[0].value) if unrec[0].value else None} without visiting the children)' if unrec else '')
         ctx.ob('C05.R2', f'visitor:{name}', mm.where(fn or tcls), f'{name} decorates and recurses', ok, detail)
     vf = meths.get('visit_FunctionDef')
     if vf is not None:
@@ -167,10 +180,7 @@ def run(ctx):
     tm = repo.mod('beartype._util.ast.utilasttest')
     tf = tm.defs.get('is_node_callable_typed')
     ctx.require(tf is not None, 'anchor vanished: is_node_callable_typed')
-    attrs = {x.attr for x in ast.walk(tf) if isinstance(x, ast.Attribute)}
-    need = {'returns', 'vararg', 'kwarg', 'args', 'kwonlyargs', 'posonlyargs', 'annotation'}
-    ctx.ob('C05.R2', 'is_node_callable_typed:all-positions', tm.where(tf),
-           'every annotation position of a signature is consulted', need <= attrs, f'missing: {sorted(need - attrs)}')
+    _typed_positions(ctx, tm, tf)
 
     # ---- R3 ----------------------------------------------------------------------
     _located(ctx)
@@ -212,17 +222,7 @@ def run(ctx):
     pm = repo.mod('beartype.claw._package._clawpkgmake')
     hf = pm.defs.get('make_conf_hookable')
     ctx.require(hf is not None, 'anchor vanished: make_conf_hookable')
-    kws = [k for c in walk_shallow(hf) if isinstance(c, ast.Call) for k in c.keywords
-           if k.arg == 'warning_cls_on_decorator_exception']
-    vals = {norm(k.value) for k in kws}
-    ok = bool(kws) and vals <= {'BeartypeClawDecorWarning'}
-    if not ok:
-        # the option may be placed in a kwargs dictionary first
-        sets = [a for a in walk_shallow(hf) if isinstance(a, ast.Assign) and "'warning_cls_on_decorator_exception'" in norm(a.targets[0])]
-        ok = bool(sets) and all(norm(a.value) == 'BeartypeClawDecorWarning' for a in sets)
-        vals = {norm(a.value) for a in sets}
-    ctx.ob('C05.R6', 'make_conf_hookable:warning-class', pm.where(hf),
-           'hookable configurations downgrade decoration exceptions to BeartypeClawDecorWarning', ok, f'{sorted(vals)}')
+    _hookable(ctx, pm, hf)
     tmod = repo.mod('beartype._decor._type.decortype')
     bt = tmod.defs.get('beartype_type')
     ctx.require(bt is not None, 'anchor vanished: beartype_type')
@@ -281,49 +281,72 @@ def _located(ctx):
         m = repo.mod(mn)
         ast_names = {local for local, (sm, sn) in m.imports.items() if sm == 'ast' and sn in AST_NODE_CLASSES}
         for fn in [x for x in ast.walk(m.tree) if isinstance(x, (ast.FunctionDef, ast.AsyncFunctionDef))]:
-            constructed = {}    # var -> construction node
-
             def is_ctor(e):
                 return isinstance(e, ast.Call) and isinstance(e.func, ast.Name) and e.func.id in ast_names
 
             def ctor_in(e):
                 return [x for x in ast.walk(e) if is_ctor(x)]
 
-            def gen(node):
-                out = []
+            def site_of(node):
+                """(variable, value) when `node` binds a freshly constructed ast node to a local."""
                 if isinstance(node, ast.Assign) and len(node.targets) == 1 and isinstance(node.targets[0], ast.Name) \
                         and ctor_in(node.value):
-                    out.append('built:' + node.targets[0].id)
+                    return node.targets[0].id, node.value
+                if isinstance(node, ast.AnnAssign) and isinstance(node.target, ast.Name) and node.value is not None \
+                        and ctor_in(node.value):
+                    return node.target.id, node.value
+                return None
+
+            def located_by(node):
+                out = []
                 for c in ([node] if isinstance(node, ast.expr) else ast.walk(node)):
                     if isinstance(c, ast.Call) and dotted(c.func) == 'copy_node_metadata':
                         trg = next((k.value for k in c.keywords if k.arg == 'node_trg'), c.args[1] if len(c.args) > 1 else None)
                         for t in (trg.elts if isinstance(trg, (ast.Tuple, ast.List)) else [trg]):
                             if isinstance(t, ast.Name):
-                                out.append('loc:' + t.id)
+                                out.append(t.id)
                 return out
 
+            # typestate as a *may* analysis: the fact `unloc:v@line` means "on some path the node built
+            # at that line and held by v has not been located yet"
+            def gen(node):
+                sv = site_of(node)
+                return [f'unloc:{sv[0]}@{node.lineno}'] if sv else []
+            live = set()
+
             def kill(node):
-                if isinstance(node, ast.Assign) and len(node.targets) == 1 and isinstance(node.targets[0], ast.Name) \
-                        and ctor_in(node.value):
-                    return ['loc:' + node.targets[0].id]
-                return []
-            sites = [a for a in walk_shallow(fn) if isinstance(a, ast.Assign) and len(a.targets) == 1
-                     and isinstance(a.targets[0], ast.Name) and ctor_in(a.value)]
+                vs = located_by(node)
+                return [f for f in live if f.split(':', 1)[1].split('@')[0] in vs] if vs else []
+            sites = [a for a in walk_shallow(fn) if site_of(a)]
             inline = [c for st in walk_shallow(fn) if isinstance(st, (ast.Return, ast.Expr)) and st.value is not None
                       for c in ctor_in(st.value)]
             if not sites and not inline:
                 continue
-            exits = []
-            Flow(gen, mode='must', kill=kill,
-                 on_exit=lambda node, kind, s: exits.append((node, kind, s)) if kind != 'raise' else None).run(fn)
+            live.update(f'unloc:{site_of(a)[0]}@{a.lineno}' for a in sites)
+            exits, rebound = [], []
+
+            def on_stmt(node, st):
+                sv = site_of(node)
+                if sv:
+                    rebound.extend((f, node) for f in st if f.startswith(f'unloc:{sv[0]}@'))
+            Flow(gen, mode='may', kill=kill, on_stmt=on_stmt,
+                 on_exit=lambda node, kind, st: exits.append((node, kind, st)) if kind != 'raise' else None).run(fn)
             for a in sites:
-                v = a.targets[0].id
+                v = site_of(a)[0]
+                fact = f'unloc:{v}@{a.lineno}'
                 n += 1
-                missing = [e for e in exits if f'built:{v}' in e[2] and f'loc:{v}' not in e[2]]
-                ctx.ob('C05.R3', f'{mn.split(".")[-1]}.{qualname_of(fn)}:{v}', m.where(a),
-                       f'node {v} = {norm(a.value)[:50]} is located before every exit', not missing,
-                       f'exit at line {getattr(missing[0][0], "lineno", "?")} is reached without '
-                       f'copy_node_metadata(node_trg={v})' if missing else '')
+                missing = [e for e in exits if fact in e[2]]
+                reb = [nd for f, nd in rebound if f == fact]
+                detail = ''
+                if missing:
+                    detail = (f'the exit at line {getattr(missing[0][0], "lineno", "end")} is reachable without '
+                              f'copy_node_metadata(node_trg={v}) after this construction')
+                elif reb:
+                    detail = f'{v} is rebound to a new node at line {reb[0].lineno} before this one was located'
+                ctx.ob('C05.R3', f'{mn.split(".")[-1]}.{qualname_of(fn)}:{v}' + (f'#{[x for x in sites if site_of(x)[0] == v].index(a) + 1}'
+                                                                              if len([x for x in sites if site_of(x)[0] == v]) > 1 else ''),
+                       m.where(a), f'node {v} = {norm(site_of(a)[1])[:50]} is located on every path before the function exits',
+                       not missing and not reb, detail)
             for c in inline:
                 n += 1
                 ctx.ob('C05.R3', f'{mn.split(".")[-1]}.{qualname_of(fn)}:inline:{norm(c)[:40]}', m.where(c),
@@ -354,6 +377,94 @@ class _ANode(AObj):
 
     def __repr__(self):
         return f'<ast.{self.kind}>'
+
+
+class _Scopes(AObj):
+    """The transformer's stack of lexical scopes (only what visit_AnnAssign reads)."""
+
+    def __getitem__(self, i):
+        top = AObj()
+        top.name = 'enclosing'
+        return top
+
+
+def _typed_positions(ctx, tm, tf):
+    """is_node_callable_typed, interpreted on abstract callable nodes: one per annotation
+    position (for list-valued positions: only the *second* parameter annotated), plus the
+    unannotated callable."""
+    from . import _gen
+    F = _gen.engines(ctx)[0].f
+    fn = F.const('beartype._util.ast.utilasttest', 'is_node_callable_typed')
+    ctx.require(isinstance(fn, FuncVal), 'anchor vanished: is_node_callable_typed')
+    hint = _ANode('Name', id='int')
+
+    def node(pos):
+        def arg(a):
+            return _ANode('arg', arg='p', annotation=hint if a else None)
+        a = _ANode('arguments', vararg=None, kwarg=None, args=[], kwonlyargs=[], posonlyargs=[], defaults=[], kw_defaults=[])
+        n = _ANode('FunctionDef', name='f', returns=None, args=a, body=[], decorator_list=[])
+        if pos == 'returns':
+            n.returns = hint
+        elif pos in ('vararg', 'kwarg'):
+            setattr(a, pos, arg(True))
+            setattr(a, 'kwarg' if pos == 'vararg' else 'vararg', arg(False))
+        elif pos is not None:
+            setattr(a, pos, [arg(False), arg(True)])
+        return n
+    for pos in ('returns', 'vararg', 'kwarg', 'args', 'kwonlyargs', 'posonlyargs', None):
+        try:
+            out = _call_function(F, fn, [node(pos)], {}, 1)
+        except (_Abort, _Raise) as ex:
+            ctx.require(False, f'cannot interpret is_node_callable_typed: {ex}')
+        want = pos is not None
+        ctx.ob('C05.R2', f'is_node_callable_typed:{pos or "unannotated"}', tm.where(tf),
+               'a callable is typed iff some annotation position (return, *args, **kwargs, any flexible, '
+               'keyword-only or positional-only parameter) is annotated', out is want,
+               f'a callable whose only annotation is at `{pos}` is reported as typed={out!r}')
+
+
+def _hookable(ctx, pm, hf):
+    """make_conf_hookable, interpreted for both values of the "user set the warning class" flag."""
+    from sa.fold import _PyCallable
+    from sa.gen import AConf
+    from . import _gen
+    F = _gen.engines(ctx)[0].f
+    fn = F.const('beartype.claw._package._clawpkgmake', 'make_conf_hookable')
+    made = []
+
+    def mkconf(*a, **kw):
+        made.append(kw)
+        return AConf(_made_from=kw)
+    saved = dict(F.stubs)
+    old = F.patch_global('beartype._conf.confmain', 'BeartypeConf', _PyCallable(mkconf))
+    F.stubs['beartype._conf.conftest.die_unless_conf'] = lambda e, a, k: None
+    try:
+        for isset in (False, True):
+            conf = AConf(_is_warning_cls_on_decorator_exception_set=isset)
+            conf.kwargs = {'is_debug': False, 'claw_is_pep526': True, 'warning_cls_on_decorator_exception': None}
+            del made[:]
+            try:
+                out = _call_function(F, fn, [conf], {}, 1)
+            except (_Abort, _Raise) as ex:
+                ctx.require(False, f'cannot interpret make_conf_hookable: {ex}')
+            if isset:
+                ok = out is conf
+                detail = f'returns {out!r} (configurations built: {len(made)})'
+            else:
+                kw = made[-1] if made else {}
+                w = kw.get('warning_cls_on_decorator_exception')
+                rest = {k: v for k, v in kw.items() if k != 'warning_cls_on_decorator_exception'}
+                ok = len(made) == 1 and getattr(out, '_made_from', None) is kw and getattr(w, 'name', None) == 'BeartypeClawDecorWarning' \
+                    and rest == {'is_debug': False, 'claw_is_pep526': True} and conf.kwargs['warning_cls_on_decorator_exception'] is None
+                detail = f'returns {out!r}; built with warning class {w!r}, other options {rest}'
+            ctx.ob('C05.R6', f'make_conf_hookable:warning-class:user-set={isset}', pm.where(hf),
+                   'a configuration whose warning class the user did not set is replaced by an otherwise equal one '
+                   'reporting decoration failures as BeartypeClawDecorWarning (the caller\'s kwargs untouched); a '
+                   'user-set class is respected', ok, detail)
+    finally:
+        F.patch_global('beartype._conf.confmain', 'BeartypeConf', old)
+        F.stubs.clear()
+        F.stubs.update(saved)
 
 
 def _annassign(ctx):
@@ -403,7 +514,7 @@ def _annassign(ctx):
                         s = _Self()
                         s._conf = AConf(claw_is_pep526=opt)
                         s._module_name = 'pkg.mod'
-                        sc = AObj()
+                        sc = _Scopes()
                         sc.is_scope_class, sc.is_scope_module = cls_scope, not cls_scope
                         s._scopes = sc
                         s.generic_visit = lambda node: node
@@ -419,7 +530,7 @@ def _annassign(ctx):
                             ctx.require(False, f'cannot interpret visit_AnnAssign({tkind}): {ex}')
                         want_check = opt and has_value and not cls_scope
                         if want_check:
-                            ok = isinstance(out, list) and len(out) == 2 and out[0] is node and isinstance(out[1], _ANode) \
+                            ok = isinstance(out, (list, tuple)) and len(out) == 2 and out[0] is node and isinstance(out[1], _ANode) \
                                 and out[1].kind == 'ExprCall' and out[1].made_with.get('func_name') == raiser
                             detail = f'returns {out!r}: the statement is left unchecked'
                         else:
